@@ -34,11 +34,56 @@ def plan(tier, seed):
     return shards
 
 
+def judge_adjacent_hex(r, ctx):
+    """An upper-case hex run directly followed by a lower-case one: two runs of same-case pairs, each decoded as one unit
+    (together they are a base64-alphabet text made of hex digits only, which the acceptance rules exclude)."""
+    from vf.gens import netgen
+
+    h, _ = cc.harnesses()
+    p1 = codecgen.rand_payload(r, r.choice([10, 12, 14, 16]))
+    p2 = codecgen.rand_payload(r, r.choice([10, 12, 14, 16]))
+    p2 = bytes([0xA0 | (p2[0] & 0x0F)]) + p2[1:]  # the lower-case run starts with a letter, so the upper-case run cannot extend into it
+    up, lo = p1.hex().upper().encode(), p2.hex().encode()
+    if not any(c in b"ABCDEF" for c in up) or not any(c in b"abcdef" for c in lo) or up[-1:].isdigit() and False:
+        return
+    pre = netgen.offsets_prefix(r)
+    data = pre + up + lo + b" " + netgen.neutral_text(r)
+    case = {"kind": "adjhex", "data": runner.hx(data), "p1": runner.hx(p1), "p2": runner.hx(p2), "off": len(pre)}
+    if not ctx.begin(case):
+        return
+    check_adjacent_hex(data, p1, p2, len(pre), ctx, case)
+
+
+def check_adjacent_hex(data, p1, p2, off, ctx, case):
+    h, _ = cc.harnesses()
+    ctx.evaluated()
+    ctx.count("adjacent_hex_cases")
+    try:
+        root = h.scan(data)
+    except Exception as e:  # noqa: BLE001
+        ctx.count("scan_raised(C01):" + type(e).__name__)
+        return
+    # the lower-case run may begin with digits that the upper-case run legitimately takes (leftmost-longest): only the
+    # total coverage and the decoded bytes are asserted
+    hexnodes = [n for n in root.children if n.obfuscation == "decoded.hexadecimal"]
+    got = b"".join(bytes(n.value) for n in hexnodes)
+    span_ok = hexnodes and hexnodes[0].start == off and hexnodes[-1].end == off + 2 * (len(p1) + len(p2)) and \
+        all(a.end == b.start for a, b in zip(hexnodes, hexnodes[1:]))
+    if got != p1 + p2 or not span_ok:
+        kinds = [(n.type, n.obfuscation, n.start, n.end) for n in root.children][:4]
+        ctx.violation("hex:adjacent-runs", f"upper-case hex run followed by a lower-case run is not decoded run by run: top-level results {kinds}; "
+                                           f"input {data[:100]!r}", case)
+    ctx.nontrivial(data)
+
+
 def xor_cases(r, ctx):
     h, _ = cc.harnesses()
     i = 0
     while not ctx.expired():
         i += 1
+        if i % 5 == 0:
+            judge_adjacent_hex(r, ctx)
+            continue
         data, p, key, form = codecgen.c13_xor_case(r)
         case = {"kind": "xor", "data": runner.hx(data), "payload": runner.hx(p), "key": key, "form": form,
                 "decoy_key": (r.randrange(1, 256) if r.random() < 0.5 else None)}
@@ -103,6 +148,9 @@ def run_shard(spec, ctx):
 
 
 def replay(case, ctx):
+    if case.get("kind") == "adjhex":
+        check_adjacent_hex(runner.unhx(case["data"]), runner.unhx(case["p1"]), runner.unhx(case["p2"]), case["off"], ctx, case)
+        return
     if case.get("kind") == "xor":
         judge_xor(runner.unhx(case["data"]), runner.unhx(case["payload"]), case["key"], case["form"], ctx, case)
     else:
